@@ -215,11 +215,13 @@ class KeyCache(t.Generic[P, T]):
     def __call__(self, *args: P.args, **kwargs: P.kwargs) -> T:
         if self.maxsize is None:
             key = self.key_f(*args, **kwargs)
-            result = self.cache.get(key, self._missing)
-            if result is not self._missing:
-                return t.cast(T, result)
+            entry = self.cache.get(key, self._missing)
+            if entry is not self._missing:
+                return t.cast(T, entry[0])
             result = self.inner_f(*args, **kwargs)
-            self.cache[key] = result
+            # keep the arguments alive with the entry: the key may be derived from their id(),
+            # which the interpreter reuses once an object has been collected
+            self.cache[key] = (result, args, kwargs)
             return result
 
         key = self.key_f(*args, **kwargs)
@@ -227,7 +229,7 @@ class KeyCache(t.Generic[P, T]):
             link = self.cache.get(key, None)
             if link is not None:
                 # extract this link
-                prev_link, next_link, _key, result = link
+                prev_link, next_link, _key, result = link[:4]
                 prev_link[NEXT] = next_link
                 next_link[PREV] = prev_link
 
@@ -248,16 +250,18 @@ class KeyCache(t.Generic[P, T]):
                 oldroot = self._root
                 oldroot[KEY] = key
                 oldroot[RESULT] = result
+                oldroot[RESULT+1:] = [(args, kwargs)]
 
                 self._root = oldroot[NEXT]
                 oldkey = self._root[KEY]
                 oldresult = self._root[RESULT]  # type: ignore # noqa: F841 (we want to keep this around for a bit)
                 self._root[KEY] = self._root[RESULT] = None
+                del self._root[RESULT+1:]
                 del self.cache[oldkey]
                 self.cache[key] = oldroot
             else:
                 last = self._root[PREV]
-                link = [last, self._root, key, result]
+                link = [last, self._root, key, result, (args, kwargs)]  # (args, kwargs): see above
                 last[NEXT] = self._root[PREV] = self.cache[key] = link
                 self.full = (len(self.cache) >= self.maxsize)
         return result
